@@ -435,61 +435,178 @@ func runSolver(ctx context.Context, sp solverSpec, file string, timeoutS int) (v
 	return
 }
 
-// solve discharges one obligation: a quick single-solver attempt, then a race.
+// symbolsOf extracts identifier-like tokens of an SMT line.
+func symbolsOf(line string) []string {
+	var out []string
+	start := -1
+	for i := 0; i <= len(line); i++ {
+		var c byte = ' '
+		if i < len(line) {
+			c = line[i]
+		}
+		if c == ' ' || c == '(' || c == ')' || c == '\n' || c == '\t' {
+			if start >= 0 {
+				out = append(out, line[start:i])
+				start = -1
+			}
+			continue
+		}
+		if start < 0 {
+			start = i
+		}
+	}
+	return out
+}
+
+// renderVariant renders the obligation keeping only selected assumptions.
+// mode "qf": no quantified assumptions; "adj": quantified assumptions only when
+// they share a non-hub symbol with the goal. Dropping assumptions is sound.
+func (o *Oblig) renderVariant(prelude, mode string) string {
+	var sb strings.Builder
+	sb.WriteString("; obligation " + o.ID + " [" + mode + "]\n")
+	sb.WriteString(prelude)
+	hub := map[string]bool{}
+	for _, s := range o.vc.sigs[:o.nsigs] {
+		sb.WriteString(s)
+		sb.WriteByte('\n')
+		if strings.HasPrefix(s, "(declare-fun ") {
+			f := strings.Fields(s)
+			if len(f) > 1 {
+				hub[f[1]] = true
+			}
+		}
+	}
+	goal := "(assert " + And(o.Reach, Not(o.Goal)).S + ")"
+	goalSyms := map[string]bool{}
+	for _, t := range symbolsOf(goal) {
+		if !hub[t] && o.vc.decl[t] && !strings.HasSuffix(t, "@0") {
+			goalSyms[t] = true
+		}
+	}
+	if mode == "adj" {
+		// one step of ground definitions: symbols defined in terms of goal symbols stay relevant
+		for _, a := range o.vc.asserts[:o.nassert] {
+			if strings.Contains(a, "forall") || strings.Contains(a, "exists") {
+				continue
+			}
+			if !strings.HasPrefix(a, "(assert (= ") {
+				continue
+			}
+			syms := symbolsOf(a)
+			hit := false
+			for _, t := range syms {
+				if goalSyms[t] {
+					hit = true
+					break
+				}
+			}
+			if hit && len(syms) < 40 {
+				for _, t := range syms {
+					if !hub[t] && o.vc.decl[t] && !strings.HasSuffix(t, "@0") && !strings.HasPrefix(t, "r!") && !strings.HasPrefix(t, "c!") && !strings.HasPrefix(t, "rl!") {
+						goalSyms[t] = true
+					}
+				}
+			}
+		}
+	}
+	for _, a := range o.vc.asserts[:o.nassert] {
+		if strings.Contains(a, "forall") || strings.Contains(a, "exists") {
+			if mode == "qf" {
+				continue
+			}
+			hit := false
+			for _, t := range symbolsOf(a) {
+				if goalSyms[t] {
+					hit = true
+					break
+				}
+			}
+			if !hit {
+				continue
+			}
+		}
+		sb.WriteString(a)
+		sb.WriteByte('\n')
+	}
+	sb.WriteString(goal + "\n(check-sat)\n")
+	return sb.String()
+}
+
+// solve discharges one obligation: quick attempts on sliced and full queries, then a race.
 func (e *Engine) solve(o *Oblig, dir string, timeoutS int, prelude string) {
 	file := filepath.Join(dir, sanitize(o.ID)+".smt2")
 	os.WriteFile(file, []byte(o.render(prelude, true)), 0o644)
 	o.Outputs = map[string]string{}
-	want := o.Expect
 	t0 := time.Now()
+	type r struct {
+		name, v, out string
+	}
+	type job struct {
+		sp      solverSpec
+		file    string
+		label   string
+		timeout int
+		full    bool
+	}
+	var jobs []job
 	quick := 3
 	if quick > timeoutS {
 		quick = timeoutS
 	}
-	v, out, _ := runSolver(context.Background(), solvers[0], file, quick)
-	o.Outputs[solvers[0].name] = trimOut(out)
-	if v == "unsat" || v == "sat" {
-		o.Result, o.Solver, o.TimeS = v, solvers[0].name, time.Since(t0).Seconds()
-		if v == "sat" {
-			o.Model = out
+	jobs = append(jobs, job{solvers[0], file, solvers[0].name, quick, true})
+	if !o.Cover {
+		for _, mode := range []string{"qf", "adj"} {
+			vf := filepath.Join(dir, sanitize(o.ID)+"."+mode+".smt2")
+			os.WriteFile(vf, []byte(o.renderVariant(prelude, mode)), 0o644)
+			jobs = append(jobs, job{solvers[0], vf, solvers[0].name + "/" + mode, quick, false})
 		}
-		_ = want
+	}
+	run := func(jobs []job) (best r) {
+		ctx, cancel := context.WithCancel(context.Background())
+		defer cancel()
+		ch := make(chan r, len(jobs))
+		full := map[string]bool{}
+		for _, j := range jobs {
+			j := j
+			full[j.label] = j.full
+			go func() {
+				v, out, _ := runSolver(ctx, j.sp, j.file, j.timeout)
+				ch <- r{j.label, v, out}
+			}()
+		}
+		best = r{v: "unknown"}
+		for range jobs {
+			x := <-ch
+			if !full[x.name] && x.v != "unsat" {
+				continue // a sliced query can only prove, never refute
+			}
+			o.Outputs[x.name] = trimOut(x.out)
+			if x.v == "unsat" {
+				best = x
+				return
+			}
+			if x.v == "sat" && best.v != "sat" {
+				best = x
+				if o.Cover {
+					return
+				}
+			} else if best.v == "unknown" && x.v == "timeout" {
+				best = r{x.name, "timeout", x.out}
+			}
+		}
 		return
 	}
-	// race
-	ctx, cancel := context.WithCancel(context.Background())
-	defer cancel()
-	type r struct {
-		name, v, out string
-	}
-	ch := make(chan r, len(solvers))
-	for _, sp := range solvers {
-		sp := sp
-		go func() {
-			v, out, _ := runSolver(ctx, sp, file, timeoutS)
-			ch <- r{sp.name, v, out}
-		}()
-	}
-	best := r{v: "unknown"}
-	for range solvers {
-		x := <-ch
-		o.Outputs[x.name] = trimOut(x.out)
-		if x.v == "unsat" {
-			best = x
-			cancel()
-			break
+	best := run(jobs)
+	if best.v != "unsat" && best.v != "sat" && timeoutS > quick {
+		jobs = nil
+		for _, sp := range solvers {
+			jobs = append(jobs, job{sp, file, sp.name, timeoutS, true})
 		}
-		if x.v == "sat" && best.v != "sat" {
-			best = x
-			if o.Cover {
-				cancel()
-				break
-			}
-		} else if best.v == "unknown" && x.v == "timeout" {
-			best = r{x.name, "timeout", x.out}
-		} else if best.name == "" {
-			best = x
+		if !o.Cover {
+			adj := filepath.Join(dir, sanitize(o.ID)+".adj.smt2")
+			jobs = append(jobs, job{solvers[0], adj, "z3-new/adj", timeoutS, false}, job{solvers[1], adj, "cvc5/adj", timeoutS, false})
 		}
+		best = run(jobs)
 	}
 	o.Result, o.Solver, o.TimeS = best.v, best.name, time.Since(t0).Seconds()
 	if best.v == "sat" {
